@@ -106,11 +106,14 @@ struct SorterJob {
   struct mtbl_threadpool *tp;
   int chunks;
   std::string tdir, err;
+  long long fail_at = -1;  // >= 1: the merge callback reports failure at that call; the sorter is then filled further and destroyed
+                           // without being iterated (a pooled sorter whose chunk failed cannot be iterated: see DESIGN, section 6)
 };
 static void *sorter_thread(void *p) {
   SorterJob *j = (SorterJob *)p;
   MergeClos mc;
   mc.keep_log = false;
+  mc.fail_at = j->fail_at;
   struct mtbl_sorter_options *so = mtbl_sorter_options_init();
   mtbl_sorter_options_set_temp_dir(so, j->tdir.c_str());
   mtbl_sorter_options_set_max_memory(so, 120);
@@ -121,10 +124,14 @@ static void *sorter_thread(void *p) {
   std::map<bytes, bytes, BLess> model;
   for (int i = 0; i < j->chunks * 4; i++) {
     char k[8];
-    snprintf(k, sizeof k, "s%d", (i * 5) % 11);
+    snprintf(k, sizeof k, "s%d", ((i / 2) * 5) % 11);  // neighbouring adds share a key: chunk jobs call the merge function too
     bytes v = token(0, i);
     model[bytes(k)] += v;
-    if (mtbl_sorter_add(s, (const uint8_t *)k, strlen(k), U(v), v.size()) != mtbl_res_success) j->err = "sorter add failed";
+    if (mtbl_sorter_add(s, (const uint8_t *)k, strlen(k), U(v), v.size()) != mtbl_res_success && j->fail_at < 1) j->err = "sorter add failed";
+  }
+  if (j->fail_at >= 1) {
+    mtbl_sorter_destroy(&s);
+    return nullptr;
   }
   struct mtbl_iter *it = mtbl_sorter_iter(s);
   KVs got = it ? drain(it) : KVs();
@@ -210,6 +217,7 @@ static void body(const Case &c, Result &r) {
   std::vector<WriterJob> wj((size_t)(do_w ? c.writers : 0));
   std::vector<ReaderJob> rj((size_t)(do_r ? c.readers : 0));
   SorterJob sj{tp, c.chunks, tdir, ""};
+  if (c.seed % 4 == 1) sj.fail_at = 1 + (long long)(c.seed / 4 % 5);
   for (size_t i = 0; i < wj.size(); i++) {
     wj[i] = WriterJob{tp, c.comp, c.blocks, (int)i, bytes(), ""};
     pthread_t t;
@@ -244,6 +252,7 @@ static void body(const Case &c, Result &r) {
   if (do_w && c.writers > 1) r.tag("writers_sharing_one_pool");
   if (do_w && c.blocks > c.pool) r.tag("more_jobs_than_pool_threads");
   if (do_r) r.tag("threads_on_shared_reader");
+  if (do_s && sj.fail_at >= 1) r.tag("pooled_sorter_with_failing_merge_callback");
 }
 static Result run_case(const Case &c) {
   Result r = run_isolated([&](Result &rr) { body(c, rr); }, 120);
